@@ -5,6 +5,10 @@ import sys
 
 
 def main():
+    # safety net: a runaway allocation must kill this shard (-> INCONCLUSIVE), not the machine
+    import resource
+
+    resource.setrlimit(resource.RLIMIT_AS, (12 * 2**30, 12 * 2**30))
     check, ip, op = sys.argv[1:4]
     with open(ip, encoding="utf-8") as f:
         job = json.load(f)
